@@ -254,7 +254,7 @@ pub fn describe_leg(leg: &Leg, thorough: bool) -> Value {
             "note": if thorough { "" } else { "thorough tier only" },
         }),
         Leg::Miri { quick_seeds, thorough_seeds } => json!({
-            "kind": "cargo +nightly miri run of /verif/harness/vmiri (real std threads, stakker with no-unsafe-queue), 6 scenarios x seeds via -Zmiri-many-seeds",
+            "kind": "cargo +nightly miri run of /verif/harness/vmiri (real std threads, stakker with no-unsafe-queue), 12 scenarios (6 write-once, 6 re-wake) x seeds via -Zmiri-many-seeds",
             "seeds_per_scenario": if thorough { *thorough_seeds } else { *quick_seeds },
         }),
         Leg::Sched { quick, thorough: th } => json!({
@@ -676,7 +676,7 @@ fn run_miri(prop: &str, seeds: u32, deadline: Instant) -> LegResult {
         ));
         return res;
     }
-    let scenarios: Vec<u32> = (0..6).collect();
+    let scenarios: Vec<u32> = (0..12).collect();
     let results: std::sync::Mutex<Vec<(u32, bool, u64, String)>> = std::sync::Mutex::new(Vec::new());
     let next = std::sync::atomic::AtomicUsize::new(0);
     std::thread::scope(|sc| {
